@@ -51,6 +51,7 @@ Apply(e) == LET a == e.a IN
     \/ e.op = "Clone"     /\ Clone(a.how)
     \/ e.op = "Take"      /\ Take(a.how)
     \/ e.op = "Drop2"     /\ Drop2
+    \/ e.op = "New2"      /\ New2
     \/ e.op = "Static"    /\ Static(a.lhs, a.rhs, a.cst, CvOf(a), a.os[1], a.os[2])
     \/ e.op = "StaticSym" /\ a.lhs = a.rhs /\ StaticSym(a.lhs, a.cst, CvOf(a), a.os[1], a.os[2])
     \/ e.op = "Accept"    /\ Accept(a.v, a.m, a.o)
